@@ -103,6 +103,31 @@ fn clause_of(m: &str) -> String {
     }
 }
 
+const LONG_SHAPES: usize = 7;
+const LONG_SHAPE_NAMES: [&str; LONG_SHAPES] = [
+    "OSC one field, BEL",
+    "OSC one field, ST",
+    "OSC three fields (0 ; n/2 ; rest), BEL",
+    "OSC field of n bytes followed by a second OSC with two short fields",
+    "DCS data string",
+    "printable run between two SGR sequences",
+    "OSC 15 short fields then a field of n bytes",
+];
+
+/// the long streams of part (3c): `n` is the length of the long string inside
+fn long_stream(n: usize, shape: usize) -> Vec<u8> {
+    let body = |len: usize| -> Vec<u8> { (0..len).map(|i| b"abcdefghijklmnopqrstuvwxyz0123456789 "[i % 37]).collect() };
+    match shape {
+        0 => [b"\x1b]".to_vec(), body(n), b"\x07z".to_vec()].concat(),
+        1 => [b"\x1b]".to_vec(), body(n), b"\x1b\\z".to_vec()].concat(),
+        2 => [b"\x1b]0;".to_vec(), body(n / 2), b";".to_vec(), body(n - n / 2), b"\x07z".to_vec()].concat(),
+        3 => [b"\x1b]52;c;".to_vec(), body(n), b"\x07\x1b]0;t\x07z".to_vec()].concat(),
+        4 => [b"\x1bP1;2q".to_vec(), body(n), b"\x1b\\z".to_vec()].concat(),
+        5 => [b"\x1b[1m".to_vec(), body(n), b"\x1b[0m".to_vec()].concat(),
+        _ => [b"\x1b]".to_vec(), b"a;".repeat(15), body(n), b"\x07z".to_vec()].concat(),
+    }
+}
+
 fn main_check(ctx: &Ctx) -> Outcome {
     let mut out = Outcome::default();
     let quick = ctx.quick();
@@ -187,6 +212,40 @@ fn main_check(ctx: &Ctx) -> Outcome {
         b.sort_by_key(|f| (f.case[0].len(), f.key()));
         out.findings.extend(b);
         out.push_part(json!({"system":"parameter values 0..=70000 + long digit strings x 4 sequence shapes","streams":count.load(Ordering::Relaxed)}));
+    }
+
+    // (3c) long strings: OSC payloads, DCS data and printable runs whose length sits at the boundaries where an
+    // implementation's bookkeeping could wrap or be capped (2^8, 2^10, 2^12, 2^16, 2^17 and beyond)
+    {
+        let sizes: Vec<usize> = if quick {
+            vec![255, 256, 257, 1023, 1024, 1025, 4096, 65535, 65536, 65537, 70000]
+        } else {
+            vec![255, 256, 257, 1023, 1024, 1025, 4095, 4096, 4097, 16384, 65534, 65535, 65536, 65537, 70000, 131071, 131072, 131073, 200000, 1 << 20]
+        };
+        let cases: Vec<(usize, usize)> = sizes.iter().flat_map(|&n| (0..LONG_SHAPES).map(move |k| (n, k))).collect();
+        let bad = std::sync::Mutex::new(Vec::<Finding>::new());
+        cases.par_iter().for_each(|&(n, k)| {
+            let stream = long_stream(n, k);
+            let mut imp = Parser::<anstyle_parse::DefaultCharAccumulator>::new();
+            let mut model = vt::Vt::default();
+            if let Err(m) = guard(|| parser_step(&mut imp, &mut model, &stream)).and_then(|r| r.map(|_| ())) {
+                let mut b = bad.lock().unwrap();
+                if b.len() < 40 {
+                    let m: String = if m.len() > 700 { format!("{} ... {}", m.chars().take(350).collect::<String>(), m.chars().rev().take(300).collect::<Vec<_>>().into_iter().rev().collect::<String>()) } else { m };
+                    b.push(Finding {
+                        system: "Parser::advance/long-strings".into(),
+                        clause: clause_of(&m),
+                        case: vec![format!("{} of {n} bytes", LONG_SHAPE_NAMES[k])],
+                        message: m,
+                        replay: json!({"kind":"long","n":n,"shape":k}),
+                    });
+                }
+            }
+        });
+        let mut b = bad.into_inner().unwrap();
+        b.sort_by_key(|f| f.key());
+        out.findings.extend(b);
+        out.push_part(json!({"system":"long OSC / DCS / print strings at power-of-two boundaries","sizes":sizes,"shapes":LONG_SHAPE_NAMES,"streams":cases.len()}));
     }
 
     // (4) reset differential
@@ -281,6 +340,11 @@ fn replay(v: &serde_json::Value) -> Result<(), String> {
                 parser_step(&mut imp, &mut model, &l)?;
             }
             Ok(())
+        }
+        "long" => {
+            let mut imp = Parser::<anstyle_parse::DefaultCharAccumulator>::new();
+            let mut model = vt::Vt::default();
+            parser_step(&mut imp, &mut model, &long_stream(v["n"].as_u64().unwrap_or(0) as usize, v["shape"].as_u64().unwrap_or(0) as usize)).map(|_| ()).map_err(|m| m.chars().take(700).collect())
         }
         "reset" => Err("reset-differential findings are replayed by re-running the check (the candidate parser is identified by its state text)".into()),
         k => Err(format!("unknown replay kind {k}")),
